@@ -66,6 +66,14 @@ func reqLeaf() any {
 		vAssume(vOr(s == "$required", vNoByte(s, '$')))
 		return s
 	default:
+		if vTier() > 0 {
+			// depth 3: non-marker leaves are a fixed int or a fixed string
+			// (required() only asks whether a leaf is the marker string)
+			if ndChoice(2) == 0 {
+				return 7
+			}
+			return "s1"
+		}
 		return ndScalar()
 	}
 }
